@@ -13,6 +13,7 @@ mod c10;
 mod c11;
 mod c12;
 mod c13;
+mod c14;
 mod c15;
 mod c16;
 mod c17;
@@ -89,6 +90,7 @@ fn run(id: &str, tier: &str) -> i32 {
         "C11" => c11::check(tier),
         "C12" => c12::check(tier),
         "C13" => c13::check(tier),
+        "C14" => c14::check(tier),
         "C15" => c15::check(tier),
         "C16" => c16::check(tier),
         "C17" => c17::check(tier),
